@@ -120,11 +120,517 @@ example : HpValid 1234455500000000 ∧ hpAngle 1234455500000000 = 123 + 44 / 60 
   · unfold HpValid; norm_num
   · unfold hpAngle; norm_num
 
+/-! ### 3. decimal degrees → HP -/
+
+theorem rhe_carry_iff (y : ℚ) (p : ℕ) : AngArith.roundDec p y = 60 ↔ rhe (y * 10 ^ p) = 60 * 10 ^ p := by
+  rw [q_roundDec, div_eq_iff (by positivity)]
+  constructor
+  · intro h; exact_mod_cast h
+  · intro h; rw [h]; push_cast; ring
+
+/-- **dec2hp** in exact arithmetic: the result is `± N / 10¹³` for digits `N` with valid HP fields
+(minutes, seconds `< 60` — the minute→degree carry included), and the angle those digits denote is
+within half a unit of the last printed seconds decimal of `x`: `0.5·10⁻⁹″` below 512°, `0.5·10⁻⁸″`
+from 512° (where the carry test uses 8 decimals). -/
+theorem dec2hp_spec (x : ℚ) :
+    ∃ N : ℕ, HpValid N ∧ dec2hp x = (if 0 ≤ x then (N : ℚ) / 10 ^ 13 else -((N : ℚ) / 10 ^ 13)) ∧
+      |hpAngle N - (|x|)| ≤ (if |x| < 512 then 1 / 2 / 10 ^ 9 else 1 / 2 / 10 ^ 8) / 3600 := by
+  obtain ⟨d, mi, h1, h2, h3, h4, h5, h6, h7⟩ := dms_split (|x| * 3600) (by positivity)
+  have hd512 : ((d : ℚ) < 512) ↔ |x| < 512 := by
+    rw [h7, mul_div_cancel_right₀ _ (by norm_num : (3600 : ℚ) ≠ 0)]
+    have := Int.floor_lt (a := |x|) (z := 512)
+    constructor
+    · intro h; apply this.mp; exact_mod_cast h
+    · intro h; have := this.mpr h; exact_mod_cast this
+  have habs : |x| = (d : ℚ) + (mi : ℚ) / 60 + (AngArith.divmod (|x| * 3600) (60 : ℚ)).2 / 3600 := by linarith
+  simp only [dec2hp, q_ofNat, q_absv, q_leb, q_eqb, q_ltb, Nat.cast_ofNat, h1, h2]
+  generalize (AngArith.divmod (|x| * 3600) (60 : ℚ)).2 = s at *
+  have hp : (if decide ((d : ℚ) < 512) = true then 9 else 8 : ℕ) = if |x| < 512 then 9 else 8 := by
+    by_cases h : |x| < 512
+    · simp [h, hd512.mpr h]
+    · have h' : ¬ ((d : ℚ) < 512) := fun h' => h (hd512.mp h')
+      rw [if_neg h, if_neg (by simpa using h')]
+  rw [hp]
+  generalize hpdef : (if |x| < 512 then 9 else 8 : ℕ) = p
+  have hbound : (1 : ℚ) / 2 / 10 ^ p = if |x| < 512 then 1 / 2 / 10 ^ 9 else 1 / 2 / 10 ^ 8 := by
+    rw [← hpdef]; split <;> rfl
+  rw [← hbound]
+  have hp98 : p = 9 ∨ p = 8 := by rw [← hpdef]; split <;> simp
+  have tr : ∀ n : ℕ, (AngArith.trunc ((n : ℕ) : ℚ)).toNat = n := by
+    intro n; have := q_trunc_intCast (n : ℤ); simp only [Int.cast_natCast] at this; rw [this]; simp
+  by_cases hc : AngArith.roundDec p s = 60
+  · -- seconds round up to 60: carry
+    have hR := (rhe_carry_iff s p).mp hc
+    have hclose := rhe_close (s * 10 ^ p)
+    rw [hR] at hclose
+    have hpow : (0 : ℚ) < 10 ^ p := by positivity
+    have hs60 : 60 - s ≤ 1 / 2 / 10 ^ p := by
+      rw [div_div, le_div_iff₀ (by positivity)]
+      have := (abs_le.mp hclose).2
+      push_cast at this
+      nlinarith
+    have hS0 : (AngArith.fmtFixed 9 (0 : ℚ)).2 = 0 := by
+      rw [q_fmtFixed]; simp [rhe_natCast 0 |> fun h => by simpa using h]
+    have sgn : ∀ v w : ℚ, v = w → (if decide (0 ≤ x) = true then v else -v) = if 0 ≤ x then w else -w := by
+      intro v w h; rw [h]; by_cases hx : 0 ≤ x <;> simp [hx]
+    by_cases hm : mi + 1 = 60
+    · have hmq : (mi : ℚ) + 1 = 60 := by exact_mod_cast hm
+      refine ⟨(d + 1) * 10 ^ 13, ?_, ?_, ?_⟩
+      · unfold HpValid; omega
+      · simp only [hc, decide_true, if_true, Bool.true_and, Nat.cast_one, Nat.cast_zero, hmq, hS0]
+        rw [show (d : ℚ) + 1 = ((d + 1 : ℕ) : ℚ) by push_cast; ring,
+            show (0 : ℚ) = ((0 : ℕ) : ℚ) by simp, tr, tr]
+        have := hpStr_value (d + 1) 0 0 (by norm_num) (by norm_num)
+        unfold hpStr at this
+        simp only [Nat.cast_zero] at this ⊢
+        apply sgn
+        rw [this]; push_cast; ring
+      · have a1 : ((d + 1) * 10 ^ 13) / 10 ^ 13 = d + 1 := by omega
+        have a2 : ((d + 1) * 10 ^ 13) / 10 ^ 11 % 100 = 0 := by omega
+        have a3 : ((d + 1) * 10 ^ 13) % 10 ^ 11 = 0 := by omega
+        have hmi : (mi : ℚ) = 59 := by linarith
+        unfold hpAngle
+        rw [a1, a2, a3, habs, hmi]
+        have e : ((d + 1 : ℕ) : ℚ) + ((0 : ℕ) : ℚ) / 60 + ((0 : ℕ) : ℚ) / 10 ^ 9 / 3600 - ((d : ℚ) + 59 / 60 + s / 3600)
+            = (60 - s) / 3600 := by push_cast; ring
+        rw [e, abs_of_nonneg (by apply div_nonneg <;> linarith)]
+        exact div_le_div_of_nonneg_right hs60 (by norm_num)
+    · have hmq : ¬ ((mi : ℚ) + 1 = 60) := by intro h; apply hm; exact_mod_cast h
+      refine ⟨d * 10 ^ 13 + (mi + 1) * 10 ^ 11, ?_, ?_, ?_⟩
+      · unfold HpValid; omega
+      · simp only [hc, decide_true, if_true, Bool.true_and, Nat.cast_one, Nat.cast_zero, hmq, hS0,
+          decide_false, Bool.false_eq_true, if_false]
+        rw [show (mi : ℚ) + 1 = ((mi + 1 : ℕ) : ℚ) by push_cast; ring, tr, tr]
+        have := hpStr_value d (mi + 1) 0 (by omega) (by norm_num)
+        unfold hpStr at this
+        try simp only [Nat.cast_zero] at this ⊢
+        apply sgn
+        rw [this]; push_cast; ring
+      · have a1 : (d * 10 ^ 13 + (mi + 1) * 10 ^ 11) / 10 ^ 13 = d := by omega
+        have a2 : (d * 10 ^ 13 + (mi + 1) * 10 ^ 11) / 10 ^ 11 % 100 = mi + 1 := by omega
+        have a3 : (d * 10 ^ 13 + (mi + 1) * 10 ^ 11) % 10 ^ 11 = 0 := by omega
+        unfold hpAngle
+        rw [a1, a2, a3, habs]
+        have e : (d : ℚ) + ((mi + 1 : ℕ) : ℚ) / 60 + ((0 : ℕ) : ℚ) / 10 ^ 9 / 3600 - ((d : ℚ) + (mi : ℚ) / 60 + s / 3600)
+            = (60 - s) / 3600 := by push_cast; ring
+        rw [e, abs_of_nonneg (by apply div_nonneg <;> linarith)]
+        exact div_le_div_of_nonneg_right hs60 (by norm_num)
+  · -- no carry: the seconds are printed with 9 decimals
+    have hR0 : 0 ≤ rhe (s * 10 ^ 9) := rhe_nonneg (by positivity)
+    have hRle : rhe (s * 10 ^ 9) ≤ 60 * 10 ^ 9 - 1 := by
+      rcases hp98 with h9 | h8
+      · subst h9
+        have h1' : rhe (s * 10 ^ 9) ≤ 60 * 10 ^ 9 :=
+          rhe_le_of_le_intCast (by push_cast; nlinarith)
+        have h2' : rhe (s * 10 ^ 9) ≠ 60 * 10 ^ 9 := fun h => hc ((rhe_carry_iff s 9).mpr h)
+        omega
+      · subst h8
+        have h1' : rhe (s * 10 ^ 8) ≤ 60 * 10 ^ 8 :=
+          rhe_le_of_le_intCast (by push_cast; nlinarith)
+        have h2' : rhe (s * 10 ^ 8) ≠ 60 * 10 ^ 8 := fun h => hc ((rhe_carry_iff s 8).mpr h)
+        have h3' : rhe (s * 10 ^ 8) ≤ 60 * 10 ^ 8 - 1 := by omega
+        have hcl := (abs_le.mp (rhe_close (s * 10 ^ 8))).1
+        have h4' : ((rhe (s * 10 ^ 8) : ℤ) : ℚ) ≤ 60 * 10 ^ 8 - 1 := by exact_mod_cast h3'
+        have e10 : s * 10 ^ 9 = (s * 10 ^ 8) * 10 := by ring
+        have hle : s * 10 ^ 9 ≤ 59999999995 := by
+          rw [e10]
+          norm_num at h4' hcl ⊢
+          linarith
+        have : rhe (s * 10 ^ 9) ≤ 60 * 10 ^ 9 - 5 :=
+          rhe_le_of_le_intCast (by push_cast; norm_num; linarith)
+        omega
+    obtain ⟨S9, hS9⟩ : ∃ S9 : ℕ, rhe (s * 10 ^ 9) = (S9 : ℤ) := ⟨(rhe (s * 10 ^ 9)).toNat, by omega⟩
+    have hS9lt : S9 < 60 * 10 ^ 9 := by omega
+    have hfmt : (AngArith.fmtFixed 9 s).2 = S9 := by rw [q_fmtFixed]; simp [hS9]
+    have hcl9 := rhe_close (s * 10 ^ 9)
+    rw [hS9] at hcl9
+    refine ⟨d * 10 ^ 13 + mi * 10 ^ 11 + S9, ?_, ?_, ?_⟩
+    · unfold HpValid; omega
+    · simp only [hc, decide_false, Bool.false_and, Bool.false_eq_true, if_false, hfmt, tr]
+      have := hpStr_value d mi S9 (by omega) (by omega)
+      unfold hpStr at this
+      have sgn : ∀ v w : ℚ, v = w → (if decide (0 ≤ x) = true then v else -v) = if 0 ≤ x then w else -w := by
+        intro v w h; rw [h]; by_cases hx : 0 ≤ x <;> simp [hx]
+      apply sgn
+      rw [this]
+    · have a1 : (d * 10 ^ 13 + mi * 10 ^ 11 + S9) / 10 ^ 13 = d := by omega
+      have a2 : (d * 10 ^ 13 + mi * 10 ^ 11 + S9) / 10 ^ 11 % 100 = mi := by omega
+      have a3 : (d * 10 ^ 13 + mi * 10 ^ 11 + S9) % 10 ^ 11 = S9 := by omega
+      unfold hpAngle
+      rw [a1, a2, a3, habs]
+      have e : (d : ℚ) + (mi : ℚ) / 60 + (S9 : ℚ) / 10 ^ 9 / 3600 - ((d : ℚ) + (mi : ℚ) / 60 + s / 3600)
+          = ((S9 : ℚ) - s * 10 ^ 9) / 10 ^ 9 / 3600 := by field_simp; ring
+      rw [e, abs_div, abs_div, abs_of_pos (by positivity : (0 : ℚ) < 10 ^ 9), abs_of_pos (by norm_num : (0 : ℚ) < 3600)]
+      apply div_le_div_of_nonneg_right _ (by norm_num)
+      have hcl9' : |(S9 : ℚ) - s * 10 ^ 9| ≤ 1 / 2 := by exact_mod_cast hcl9
+      have h9 : |(S9 : ℚ) - s * 10 ^ 9| / 10 ^ 9 ≤ 1 / 2 / 10 ^ 9 :=
+        div_le_div_of_nonneg_right hcl9' (by positivity)
+      refine le_trans h9 ?_
+      rcases hp98 with h | h <;> subst h <;> norm_num
+
+theorem hpAngle_zero : hpAngle 0 = 0 := by unfold hpAngle; norm_num
+
+/-- the tolerance of one `dec2hp`: half a unit of the 9th (8th from 512°) decimal of the seconds,
+in degrees -/
+def hpTol (x : ℚ) : ℚ := (if |x| < 512 then 1 / 2 / 10 ^ 9 else 1 / 2 / 10 ^ 8) / 3600
+
+theorem hpTol_le (x : ℚ) : hpTol x ≤ 1 / 2 / 10 ^ 8 / 3600 := by
+  unfold hpTol; split <;> norm_num
+
+/-- **dec2hp_valid** and **dec2hp_close**: the HP value produced by `dec2hp` is accepted by `hp2dec`
+(its fields are valid — false before the minute→degree carry was added), and reading it back
+gives `x` within `0.5·10⁻⁹″` (`|x| < 512°`; `0.5·10⁻⁸″` beyond), with the sign of `x`. -/
+theorem dec2hp_close (x : ℚ) : ∃ y, hp2dec (dec2hp x) = .ok y ∧ |y - x| ≤ hpTol x := by
+  obtain ⟨N, hv, hval, hb⟩ := dec2hp_spec x
+  have hN0 : (0 : ℚ) ≤ (N : ℚ) / 10 ^ 13 := by positivity
+  have habs : |dec2hp x| = (N : ℚ) / 10 ^ 13 := by
+    rw [hval]; split
+    · exact abs_of_nonneg hN0
+    · rw [abs_neg, abs_of_nonneg hN0]
+  have h := (hp2dec_exact (dec2hp x) N habs).1 hv
+  refine ⟨_, h, ?_⟩
+  unfold hpTol
+  by_cases hx : 0 ≤ x
+  · have : 0 ≤ dec2hp x := by rw [hval, if_pos hx]; exact hN0
+    rw [if_pos this]
+    have e : hpAngle N - x = hpAngle N - |x| := by rw [abs_of_nonneg hx]
+    rw [e]; exact hb
+  · have hx' : x < 0 := not_le.mp hx
+    by_cases hN : N = 0
+    · subst hN
+      have : dec2hp x = 0 := by rw [hval, if_neg hx]; simp
+      rw [this, if_pos (le_refl 0)]
+      have e : hpAngle 0 - x = -(hpAngle 0 - |x|) := by rw [hpAngle_zero, abs_of_neg hx']; ring
+      rw [e, abs_neg]; exact hb
+    · have : ¬ (0 ≤ dec2hp x) := by
+        rw [hval, if_neg hx]
+        have : (0 : ℚ) < (N : ℚ) / 10 ^ 13 := by
+          have : 0 < N := Nat.pos_of_ne_zero hN
+          positivity
+        linarith
+      rw [if_neg this]
+      have e : -hpAngle N - x = -(hpAngle N - |x|) := by rw [abs_of_neg hx']; ring
+      rw [e, abs_neg]
+      exact hb
+
+theorem dec2hp_valid (x : ℚ) : ∃ y, hp2dec (dec2hp x) = .ok y := by
+  obtain ⟨y, h, -⟩ := dec2hp_close x; exact ⟨y, h⟩
+
+example : hpTol 259.5 = 1 / 2 / 10 ^ 9 / 3600 := by unfold hpTol; norm_num [abs_of_pos]
+
+/-! ### 4. the HPAngle constructor -/
+
+/-- **hpangle_accepts_iff_valid**: `HPAngle(hp)` accepts exactly the values whose minutes and
+seconds fields are below 60 — the same test, on the same digits, as `hp2dec`. -/
+theorem hpangle_accepts_iff_valid (hp : ℚ) :
+    mkHP hp = if HpValid (hpN hp) then .ok (.hpA hp) else .error .ValueError := by
+  unfold mkHP hpValidate hpN
+  simp only [hpFields, q_reprFixed]
+  rw [hpCheck_iff]
+  by_cases hv : HpValid (rhe (|hp| * 10 ^ 13)).natAbs
+  · rw [if_pos hv, if_pos hv]
+  · rw [if_neg hv, if_neg hv]
+
+/-- every `dec2hp` result can be wrapped in an `HPAngle` (`dec2hpa` never raises) -/
+theorem dec2hpa_ok (x : ℚ) : dec2hpa x = .ok (.hpA (dec2hp x)) := by
+  obtain ⟨N, hv, hval, -⟩ := dec2hp_spec x
+  have hN0 : (0 : ℚ) ≤ (N : ℚ) / 10 ^ 13 := by positivity
+  have habs : |dec2hp x| = (N : ℚ) / 10 ^ 13 := by
+    rw [hval]; split
+    · exact abs_of_nonneg hN0
+    · rw [abs_neg, abs_of_nonneg hN0]
+  have hN : hpN (dec2hp x) = N := by
+    unfold hpN
+    rw [habs, div_mul_cancel₀ _ (by positivity), rhe_natCast]; simp
+  unfold dec2hpa
+  rw [hpangle_accepts_iff_valid, hN, if_pos hv]
+
 /-! ### 5. gradians -/
 
 /-- `dec2gon x = 10x/9` and `gon2dec` inverts it exactly -/
 theorem gon_exact (x : ℚ) : dec2gon x = 10 * x / 9 ∧ gon2dec (dec2gon x) = x ∧ dec2gon (gon2dec x) = x := by
   simp only [dec2gon, gon2dec, q_natDiv]
   refine ⟨by push_cast; ring, by push_cast; ring, by push_cast; ring⟩
+
+/-! ### 6. constructors: sign inference -/
+
+section Ctor
+variable {α : Type} [Add α] [Sub α] [Mul α] [Div α] [Neg α] [AngArith α]
+
+/-- **ctor_sign** (any arithmetic, binary64 included): `DMSAngle(d, m, s, positive)` is negative
+iff `positive is False`, or the printed degree starts with `-` (so `-0.0` counts, `-0` does not),
+or the degree is zero, `positive` was not given and the minute — or else the second — is negative. -/
+theorem ctor_sign_dms (d m s : PyNum α) (p : Option Bool) :
+    (mkDMS d m s p).positive = false ↔
+      (p = some false ∨ d.strNeg = true ∨
+        (d.isZero = true ∧ p = none ∧ (m.lt0 = true ∨ s.lt0 = true))) := by
+  unfold mkDMS
+  rcases p with _ | _ | _ <;> cases d.strNeg <;> cases d.isZero <;> cases m.lt0 <;> cases s.lt0 <;> simp
+
+theorem ctor_sign_ddm (d m : PyNum α) (p : Option Bool) :
+    (mkDDM d m p).positive = false ↔
+      (p = some false ∨ d.strNeg = true ∨ (d.isZero = true ∧ p = none ∧ m.lt0 = true)) := by
+  unfold mkDDM
+  rcases p with _ | _ | _ <;> cases d.strNeg <;> cases d.isZero <;> cases m.lt0 <;> simp
+
+/-- magnitudes are taken field by field, whatever the signs of the arguments -/
+theorem ctor_fields_dms (d m s : PyNum α) (p : Option Bool) :
+    (mkDMS d m s p).degree = d.toInt.natAbs ∧ (mkDMS d m s p).minute = m.toInt.natAbs ∧
+    (mkDMS d m s p).second = s.absF := ⟨rfl, rfl, rfl⟩
+end Ctor
+
+example : (mkDMS (α := ℚ) (.flt 0) (.int (-5)) (.flt 3) none).positive = false := by
+  rw [ctor_sign_dms]; right; right; simp [PyNum.isZero, PyNum.lt0]
+
+/-! ### 7. objects: well-formedness, exact methods -/
+
+/-- well-formed objects: what the constructors produce (magnitude fields are non-negative; an
+`HPAngle` holds valid HP digits) -/
+def WF : AngleObj ℚ → Prop
+  | .decA _ => True
+  | .gonA _ => True
+  | .hpA x => HpValid (hpN x)
+  | .dmsA s => 0 ≤ s.second
+  | .ddmA s => 0 ≤ s.minute
+
+/-- the magnitude a DMS object denotes -/
+def dmsMag (s : DMS ℚ) : ℚ := (s.degree : ℚ) + (s.minute : ℚ) / 60 + s.second / 3600
+def ddmMag (s : DDM ℚ) : ℚ := (s.degree : ℚ) + s.minute / 60
+
+theorem dms_dec (s : DMS ℚ) : s.dec = if s.positive then dmsMag s else -dmsMag s := by
+  simp only [DMS.dec, dmsMag, q_ofNat, q_natDiv]; norm_num
+theorem ddm_dec (s : DDM ℚ) : s.dec = if s.positive then ddmMag s else -ddmMag s := by
+  simp only [DDM.dec, ddmMag, q_ofNat]; norm_num
+
+/-- `DMSAngle(d, m, s)` from non-negative fields is positive with those fields -/
+theorem mkDMS_pos (d m : ℕ) (s : ℚ) (hs : 0 ≤ s) :
+    mkDMS (.int (d : ℤ)) (.int (m : ℤ)) (.flt s) none = ⟨true, d, m, s⟩ := by
+  have : ¬ (s < 0) := not_lt.mpr hs
+  simp [mkDMS, PyNum.strNeg, PyNum.isZero, PyNum.lt0, PyNum.toInt, PyNum.absF, abs_of_nonneg hs, this]
+
+/-- `DMSAngle(-d, -m, -s)`: negative unless all fields are zero -/
+theorem mkDMS_neg (d m : ℕ) (s : ℚ) (hs : 0 ≤ s) :
+    mkDMS (.int (-(d : ℤ))) (.int (-(m : ℤ))) (.flt (-s)) none =
+      ⟨decide (d = 0 ∧ m = 0 ∧ s = 0), d, m, s⟩ := by
+  have habs : |(-s)| = s := by rw [abs_neg, abs_of_nonneg hs]
+  simp only [mkDMS, PyNum.strNeg, PyNum.isZero, PyNum.lt0, PyNum.toInt, PyNum.absF, q_absv, habs,
+    Int.natAbs_neg, Int.natAbs_natCast, q_ltb, q_ofNat, Nat.cast_zero]
+  congr 1
+  by_cases hd : d = 0
+  · by_cases hm : m = 0
+    · by_cases hs0 : s = 0
+      · subst hd hm hs0; simp
+      · have : 0 < s := lt_of_le_of_ne hs (Ne.symm hs0)
+        subst hd hm; simp [hs0, this]
+    · have : 0 < m := Nat.pos_of_ne_zero hm
+      subst hd; simp [hm, this]
+  · have : 0 < d := Nat.pos_of_ne_zero hd
+    simp [hd, this]
+
+theorem mkDDM_pos (d : ℕ) (m : ℚ) (hm : 0 ≤ m) :
+    mkDDM (.int (d : ℤ)) (.flt m) none = ⟨true, d, m⟩ := by
+  have : ¬ (m < 0) := not_lt.mpr hm
+  simp [mkDDM, PyNum.strNeg, PyNum.isZero, PyNum.lt0, PyNum.toInt, PyNum.absF, abs_of_nonneg hm, this]
+
+theorem mkDDM_neg (d : ℕ) (m : ℚ) (hm : 0 ≤ m) :
+    mkDDM (.int (-(d : ℤ))) (.flt (-m)) none = ⟨decide (d = 0 ∧ m = 0), d, m⟩ := by
+  have habs : |(-m)| = m := by rw [abs_neg, abs_of_nonneg hm]
+  simp only [mkDDM, PyNum.strNeg, PyNum.isZero, PyNum.lt0, PyNum.toInt, PyNum.absF, q_absv, habs,
+    Int.natAbs_neg, Int.natAbs_natCast, q_ltb, q_ofNat, Nat.cast_zero]
+  congr 1
+  by_cases hd : d = 0
+  · by_cases hm0 : m = 0
+    · subst hd hm0; simp
+    · have : 0 < m := lt_of_le_of_ne hm (Ne.symm hm0)
+      subst hd; simp [hm0, this]
+  · have : 0 < d := Nat.pos_of_ne_zero hd
+    simp [hd, this]
+
+theorem dmsMag_nonneg (s : DMS ℚ) (h : 0 ≤ s.second) : 0 ≤ dmsMag s := by
+  unfold dmsMag; positivity
+theorem ddmMag_nonneg (s : DDM ℚ) (h : 0 ≤ s.minute) : 0 ≤ ddmMag s := by
+  unfold ddmMag; positivity
+
+theorem dmsMag_eq_zero (s : DMS ℚ) (h : s.degree = 0 ∧ s.minute = 0 ∧ s.second = 0) : dmsMag s = 0 := by
+  unfold dmsMag; rw [h.1, h.2.1, h.2.2]; simp
+theorem ddmMag_eq_zero (s : DDM ℚ) (h : s.degree = 0 ∧ s.minute = 0) : ddmMag s = 0 := by
+  unfold ddmMag; rw [h.1, h.2]; simp
+
+/-- `-a` on DMS: exact, also for angles in (−1°, 0) and for zero -/
+theorem dms_neg (s : DMS ℚ) (h : 0 ≤ s.second) : s.neg.dec = -s.dec ∧ 0 ≤ s.neg.second := by
+  unfold DMS.neg
+  by_cases hp : s.positive
+  · rw [if_pos hp, mkDMS_neg _ _ _ h, dms_dec, dms_dec, if_pos hp]
+    refine ⟨?_, h⟩
+    by_cases hz : s.degree = 0 ∧ s.minute = 0 ∧ s.second = 0
+    · simp [hz, dmsMag]
+    · simp only [hz, decide_false, dmsMag]; simp
+  · rw [if_neg hp, mkDMS_pos _ _ _ h, dms_dec, dms_dec, if_neg hp]
+    exact ⟨by simp [dmsMag], h⟩
+
+theorem dms_abs (s : DMS ℚ) (h : 0 ≤ s.second) : s.abs.dec = |s.dec| ∧ 0 ≤ s.abs.second := by
+  unfold DMS.abs
+  rw [mkDMS_pos _ _ _ h, dms_dec, dms_dec]
+  refine ⟨?_, h⟩
+  have hm := dmsMag_nonneg s h
+  have e : dmsMag (⟨true, s.degree, s.minute, s.second⟩ : DMS ℚ) = dmsMag s := rfl
+  by_cases hp : s.positive
+  · simp only [hp, if_true, e, abs_of_nonneg hm]
+  · simp only [hp, if_true, e, Bool.false_eq_true, if_false, abs_neg, abs_of_nonneg hm]
+
+theorem ddm_neg (s : DDM ℚ) (h : 0 ≤ s.minute) : s.neg.dec = -s.dec ∧ 0 ≤ s.neg.minute := by
+  unfold DDM.neg
+  by_cases hp : s.positive
+  · rw [if_pos hp, mkDDM_neg _ _ h, ddm_dec, ddm_dec, if_pos hp]
+    refine ⟨?_, h⟩
+    by_cases hz : s.degree = 0 ∧ s.minute = 0
+    · simp [hz, ddmMag]
+    · simp only [hz, decide_false, ddmMag]; simp
+  · rw [if_neg hp, mkDDM_pos _ _ h, ddm_dec, ddm_dec, if_neg hp]
+    exact ⟨by simp [ddmMag], h⟩
+
+theorem ddm_abs (s : DDM ℚ) (h : 0 ≤ s.minute) : s.abs.dec = |s.dec| ∧ 0 ≤ s.abs.minute := by
+  unfold DDM.abs
+  rw [mkDDM_pos _ _ h, ddm_dec, ddm_dec]
+  refine ⟨?_, h⟩
+  have hm := ddmMag_nonneg s h
+  have e : ddmMag (⟨true, s.degree, s.minute⟩ : DDM ℚ) = ddmMag s := rfl
+  by_cases hp : s.positive
+  · simp only [hp, if_true, e, abs_of_nonneg hm]
+  · simp only [hp, if_true, e, Bool.false_eq_true, if_false, abs_neg, abs_of_nonneg hm]
+
+/-- `DMSAngle.ddm()` is exact -/
+theorem dms_ddm (s : DMS ℚ) (h : 0 ≤ s.second) : s.ddm.dec = s.dec ∧ 0 ≤ s.ddm.minute := by
+  unfold DMS.ddm
+  have hm : (0 : ℚ) ≤ (s.minute : ℚ) + s.second / 60 := by positivity
+  simp only [q_ofNat, Nat.cast_ofNat]
+  rw [mkDDM_pos _ _ hm]
+  by_cases hp : s.positive
+  · rw [if_pos hp, ddm_dec, dms_dec, if_pos hp]
+    refine ⟨?_, hm⟩
+    simp only [if_true, ddmMag, dmsMag]; ring
+  · rw [if_neg hp]
+    obtain ⟨h1, h2⟩ := ddm_neg ⟨true, s.degree, (s.minute : ℚ) + s.second / 60⟩ hm
+    refine ⟨?_, h2⟩
+    rw [h1, ddm_dec, dms_dec, if_neg hp]
+    simp only [if_true, ddmMag, dmsMag]; ring
+
+/-- `DDMAngle.dms()` is exact -/
+theorem ddm_dms (s : DDM ℚ) (h : 0 ≤ s.minute) : s.dms.dec = s.dec ∧ 0 ≤ s.dms.second := by
+  unfold DDM.dms
+  simp only [q_divmod, q_ofNat, Nat.cast_ofNat, Nat.cast_one, div_one, one_mul]
+  have hf0 : 0 ≤ ⌊s.minute⌋ := Int.floor_nonneg.mpr h
+  have hfr : 0 ≤ (s.minute - (⌊s.minute⌋ : ℚ)) * 60 := by
+    have := Int.floor_le s.minute; nlinarith
+  rw [q_trunc_intCast]
+  obtain ⟨k, hk⟩ : ∃ k : ℕ, ⌊s.minute⌋ = (k : ℤ) := ⟨⌊s.minute⌋.toNat, by omega⟩
+  rw [hk] at hfr ⊢
+  rw [mkDMS_pos _ _ _ hfr]
+  have hkq : (k : ℚ) = ((⌊s.minute⌋ : ℤ) : ℚ) := by rw [hk]; simp
+  by_cases hp : s.positive
+  · rw [if_pos hp, dms_dec, ddm_dec, if_pos hp]
+    refine ⟨?_, hfr⟩
+    simp only [if_true, ddmMag, dmsMag]; push_cast; ring
+  · rw [if_neg hp]
+    obtain ⟨h1, h2⟩ := dms_neg ⟨true, s.degree, k, (s.minute - ((k : ℤ) : ℚ)) * 60⟩ hfr
+    refine ⟨?_, h2⟩
+    rw [h1, dms_dec, ddm_dec, if_neg hp]
+    simp only [if_true, ddmMag, dmsMag]; push_cast; ring
+
+theorem mkDMS_some (d m : ℕ) (s : ℚ) (hs : 0 ≤ s) (b : Bool) :
+    mkDMS (.int (d : ℤ)) (.int (m : ℤ)) (.flt s) (some b) = ⟨b, d, m, s⟩ := by
+  cases b <;> simp [mkDMS, PyNum.strNeg, PyNum.isZero, PyNum.toInt, PyNum.absF, abs_of_nonneg hs]
+
+theorem mkDDM_some (d : ℕ) (m : ℚ) (hm : 0 ≤ m) (b : Bool) :
+    mkDDM (.int (d : ℤ)) (.flt m) (some b) = ⟨b, d, m⟩ := by
+  cases b <;> simp [mkDDM, PyNum.strNeg, PyNum.isZero, PyNum.toInt, PyNum.absF, abs_of_nonneg hm]
+
+/-- the fields `_hp_fields` reads, as arithmetic on the digits -/
+theorem hpFields_eq (hp : ℚ) :
+    (hpFields hp).deg = hpN hp / 10 ^ 13 ∧ (hpFields hp).min = hpN hp / 10 ^ 11 % 100 ∧
+    (hpFields hp).sec = ((hpN hp % 10 ^ 11 : ℕ) : ℚ) / 10 ^ 9 := by
+  obtain ⟨-, -, h3, h4⟩ := hp_slices (hpN hp)
+  unfold hpN at *
+  simp only [hpFields, q_reprFixed, h3, h4, q_ofDecimal, Bool.false_eq_true, if_false, and_self]
+
+theorem hpAngle_nonneg (N : ℕ) : 0 ≤ hpAngle N := by unfold hpAngle; positivity
+
+/-- `hp2dms`: the written fields, sign of the HP value; exact -/
+theorem hp2dms_exact (hp : ℚ) :
+    (hp2dms hp).dec = (if 0 ≤ hp then hpAngle (hpN hp) else -hpAngle (hpN hp)) ∧ 0 ≤ (hp2dms hp).second ∧
+    (hp2dms hp).degree = hpN hp / 10 ^ 13 ∧ (hp2dms hp).minute = hpN hp / 10 ^ 11 % 100 := by
+  obtain ⟨h1, h2, h3⟩ := hpFields_eq hp
+  have hs : (0 : ℚ) ≤ ((hpN hp % 10 ^ 11 : ℕ) : ℚ) / 10 ^ 9 := by positivity
+  simp only [hp2dms]
+  rw [h1, h2, h3, mkDMS_some _ _ _ hs, dms_dec]
+  refine ⟨?_, hs, rfl, rfl⟩
+  simp only [q_leb, q_ofNat, Nat.cast_zero, dmsMag, hpAngle]
+  by_cases hx : 0 ≤ hp <;> simp [hx]
+
+/-- `hp2ddm`: exact -/
+theorem hp2ddm_exact (hp : ℚ) :
+    (hp2ddm hp).dec = (if 0 ≤ hp then hpAngle (hpN hp) else -hpAngle (hpN hp)) ∧ 0 ≤ (hp2ddm hp).minute := by
+  obtain ⟨h1, h2, h3⟩ := hpFields_eq hp
+  have hm : (0 : ℚ) ≤ ((hpN hp / 10 ^ 11 % 100 : ℕ) : ℚ) + ((hpN hp % 10 ^ 11 : ℕ) : ℚ) / 10 ^ 9 / 60 := by positivity
+  simp only [hp2ddm, q_ofNat, Nat.cast_ofNat]
+  rw [h1, h2, h3, mkDDM_some _ _ hm, ddm_dec]
+  refine ⟨?_, hm⟩
+  simp only [q_leb, q_ofNat, Nat.cast_zero, ddmMag, hpAngle]
+  by_cases hx : 0 ≤ hp
+  · simp only [hx, decide_true, if_true]; ring
+  · simp only [hx, decide_false, Bool.false_eq_true, if_false]; ring
+
+/-- `.dec()` of an object, as an option -/
+def odec (o : AngleObj ℚ) : Option ℚ := match o.dec with | .ok v => some v | .error _ => none
+
+theorem dec2dms_dec (x : ℚ) : (dec2dms x).dec = x ∧ 0 ≤ (dec2dms x).second := by
+  obtain ⟨-, h2, -, h4, h5⟩ := dec2dms_exact x
+  refine ⟨?_, h2⟩
+  rw [dms_dec, h5]; unfold dmsMag; rw [h4]
+  by_cases hx : 0 ≤ x
+  · simp [hx, abs_of_nonneg hx]
+  · simp [hx, abs_of_neg (not_le.mp hx)]
+
+theorem dec2ddm_dec (x : ℚ) : (dec2ddm x).dec = x ∧ 0 ≤ (dec2ddm x).minute := by
+  obtain ⟨h1, -, h3, h4⟩ := dec2ddm_exact x
+  refine ⟨?_, h1⟩
+  rw [ddm_dec, h4]; unfold ddmMag; rw [h3]
+  by_cases hx : 0 ≤ x
+  · simp [hx, abs_of_nonneg hx]
+  · simp [hx, abs_of_neg (not_le.mp hx)]
+
+/-- the class-specific rounding of a result: only HP rounds (to the printed resolution) -/
+def clsTol (c : Cls) (v : ℚ) : ℚ := if c = .HP then hpTol v else 0
+
+theorem hpTol_nonneg (x : ℚ) : 0 ≤ hpTol x := by unfold hpTol; split <;> norm_num
+theorem clsTol_nonneg (c : Cls) (v : ℚ) : 0 ≤ clsTol c v := by
+  unfold clsTol; split; exact hpTol_nonneg v; exact le_refl 0
+
+/-- what every operator of class `c` does with its decimal-degree result: an object of class `c`,
+well formed, denoting `v` up to the class's representation error -/
+theorem fromDec_sound (c : Cls) (v : ℚ) :
+    ∃ o b, fromDec c v = .ok o ∧ o.cls = c ∧ WF o ∧ o.dec = .ok b ∧ |b - v| ≤ clsTol c v := by
+  cases c
+  · exact ⟨.decA v, v, rfl, rfl, trivial, rfl, by simp [clsTol]⟩
+  · obtain ⟨y, hy, hb⟩ := dec2hp_close v
+    have hok := dec2hpa_ok v
+    refine ⟨.hpA (dec2hp v), y, hok, rfl, ?_, hy, by simpa [clsTol] using hb⟩
+    have := hp2dec_spec (dec2hp v)
+    rw [hy] at this
+    by_contra hv
+    have hv' : ¬ HpValid (hpN (dec2hp v)) := hv
+    rw [if_neg hv'] at this
+    cases this
+  · refine ⟨.gonA (dec2gon v), v, rfl, rfl, trivial, ?_, by simp [clsTol]⟩
+    show Except.ok (gon2dec (dec2gon v)) = _
+    rw [(gon_exact v).2.1]
+  · obtain ⟨h1, h2⟩ := dec2dms_dec v
+    refine ⟨.dmsA (dec2dms v), v, rfl, rfl, h2, ?_, by simp [clsTol]⟩
+    show Except.ok (dec2dms v).dec = _
+    rw [h1]
+  · obtain ⟨h1, h2⟩ := dec2ddm_dec v
+    refine ⟨.ddmA (dec2ddm v), v, rfl, rfl, h2, ?_, by simp [clsTol]⟩
+    show Except.ok (dec2ddm v).dec = _
+    rw [h1]
 
 end GeodeVerif.C08
